@@ -248,7 +248,7 @@ theorem string_quirks :
 tokens lie in the source one after the other, separated only by white space, each token located at the
 position (`advLoc ⟨1,0⟩ (text before it)`: line 1-based, column 0-based, in runes) of the first character
 of its raw text, whose relation to the token value is `TextOf` (identical text; or the text `unescape`s to
-the value of a String token; or `not`, blanks, `in` for the operator `not in`); the last token is EOF.
+the value of a String token; or `not`, runes that `acceptWord` skips (`cc.wordBlank`), `in` for the operator `not in`); the last token is EOF.
 From the invariants I1–I5 of DESIGN Appendix D (`Good`, `Fresh` in Proofs/LexPos). -/
 theorem token_positions (cc : CharClass) (src : String) (toks : List Token)
     (h : lex cc LexTables.std src = .ok toks) : Laid cc LexTables.std ⟨1, 0⟩ src.toList toks :=
@@ -258,7 +258,7 @@ theorem token_positions (cc : CharClass) (src : String) (toks : List Token)
 theorem token_positions_each (cc : CharClass) (src : String) (toks : List Token)
     (h : lex cc LexTables.std src = .ok toks) :
     ∀ t ∈ toks, t.kind ≠ .eof → ∃ pre raw post, src.toList = pre ++ raw ++ post ∧ raw ≠ [] ∧
-      (∀ c, raw.head? = some c → cc.isSpace c = false) ∧ t.loc = posOf pre ∧ TextOf LexTables.std t raw :=
+      (∀ c, raw.head? = some c → cc.isSpace c = false) ∧ t.loc = posOf pre ∧ TextOf cc LexTables.std t raw :=
   (token_positions cc src toks h).positions
 
 /-- `lex_nonempty`: a successful `lex` ends with EOF, and EOF occurs only there -/
